@@ -418,14 +418,26 @@ impl<W: WorldOps> Engine<W> {
             let s = self.worlds[wi].as_mut().unwrap();
             guard(|| a.destroy(&mut s.w, level, key))
         };
+        let expect_overflow = alive && self.expect_version_overflow(wi, uid);
         let out = match res {
             Ok(o) => o,
             Err(c) => {
-                self.unexpected_panic(Some(wi), "destroy", &c);
+                if expect_overflow && c.contains("version overflow") {
+                    self.rep.count(if c.contains("slot version") { "overflow.panic.slot" } else { "overflow.panic.arch" });
+                    self.after_fault(wi, &[uid], "version overflow panic in destroy");
+                } else {
+                    self.unexpected_panic(Some(wi), "destroy", &c);
+                }
                 return;
             }
         };
         let len1 = a.len(&self.slot(wi).w);
+        if expect_overflow {
+            if let DestroyOut::Destroyed(_) = out {
+                self.viol(Some(wi), &["C08"], "overflow-no-panic", format!("{}: destroying {} needed a generation counter beyond u32::MAX but did not panic", a.name(), raw_fmt(handle)));
+                return;
+            }
+        }
         match out {
             DestroyOut::Destroyed(back) => {
                 if !alive {
@@ -458,6 +470,81 @@ impl<W: WorldOps> Engine<W> {
                 self.rep.count("destroy_stale_rejected");
             }
         }
+    }
+
+    // ---- generation counters near overflow -------------------------------------------------
+
+    /// The archetype version the model expects (u64, no wrap): preset + removals since.
+    pub fn model_arch_version(&self, wi: usize, ai: usize) -> u64 {
+        let m = &self.sl(wi).m.archs[ai];
+        m.version_base.1 as u64 + (m.removals - m.version_base.0)
+    }
+
+    /// In the default configuration: would destroying `uid` push a counter past u32::MAX?
+    pub fn expect_version_overflow(&self, wi: usize, uid: usize) -> bool {
+        if self.wrapping {
+            return false;
+        }
+        let e = &self.sl(wi).m.ents[uid];
+        e.handle.raw().1 == u32::MAX || self.model_arch_version(wi, e.arch) >= u32::MAX as u64
+    }
+
+    /// After a caught panic: the world is marked, and each involved entity must be fully
+    /// present or fully absent; the model follows what `contains` says and the probes that
+    /// run next demand all-or-nothing on every path and column.
+    pub fn after_fault(&mut self, wi: usize, uids: &[usize], what: &str) {
+        self.rep.count("faults_survived");
+        self.slot(wi).m.faulted = true;
+        for uid in uids.iter().copied() {
+            let (ai, handle, alive) = {
+                let e = &self.sl(wi).m.ents[uid];
+                (e.arch, e.handle, e.alive)
+            };
+            if !alive {
+                continue;
+            }
+            let a = self.archs[ai];
+            let res = {
+                let s = self.worlds[wi].as_mut().unwrap();
+                guard(|| a.lookup(&mut s.w, LK_A_CONTAINS, Key::Typed(handle, false)))
+            };
+            match res {
+                Ok(Some(_)) => self.rep.count("fault.entity_present_after"),
+                Ok(None) => {
+                    self.rep.count("fault.entity_absent_after");
+                    let row = self.sl(wi).m.ents[uid].row.clone();
+                    for c in row.iter() {
+                        if c.0 != 0 && with_reg(|r| r.is_live(c.0)) {
+                            self.leaked.insert(c.0);
+                        }
+                    }
+                    let step = self.rep.step;
+                    self.slot(wi).m.remove(uid, step);
+                }
+                Err(c) => self.viol(Some(wi), &["C10"], "after-fault", format!("{what}: contains() panicked afterwards: {}", c.msg())),
+            }
+        }
+    }
+
+    /// Hook H2: presets generation counters of an EMPTY archetype to a reachable combination
+    /// (archetype version - 1 == sum of (slot version - 1)).
+    pub fn preset_versions(&mut self, wi: usize, ai: usize, slots: &[(usize, u32)]) {
+        let a = self.archs[ai];
+        let arch_version: u64 = 1 + slots.iter().map(|(_, v)| *v as u64 - 1).sum::<u64>();
+        assert!(arch_version <= u32::MAX as u64, "unreachable preset");
+        self.rep.log_op(format!("w{} preset arch={} slots={:?} arch_version={arch_version}", self.sl(wi).m.id, a.name(), slots));
+        {
+            let s = self.worlds[wi].as_mut().unwrap();
+            a.preset_versions(&mut s.w, slots, arch_version as u32);
+        }
+        let m = &mut self.slot(wi).m.archs[ai];
+        assert!(m.live.is_empty());
+        m.version_base = (m.removals, arch_version as u32);
+        for (p, v) in slots.iter() {
+            // a real history would have released the position v - 1 times to get here
+            *m.pos_releases.entry(*p as u32).or_insert(0) += *v as u64 - 1;
+        }
+        self.rep.count("presets");
     }
 
     // ---- representation invariants (oracle I, hook H1) -----------------------------------
